@@ -212,6 +212,14 @@ pub fn run_inv(bin: &Path, scratch: &Scratch, world: &World, inv: &Invocation, m
     if let Some(h) = &world.xdg {
         cmd.env("XDG_CONFIG_HOME", root.join(h));
     }
+    if world.unpriv {
+        use std::os::unix::fs::PermissionsExt;
+        use std::os::unix::process::CommandExt;
+        // the trace file must be writable by the unprivileged child
+        std::fs::write(&trace_path, b"").map_err(|e| e.to_string())?;
+        std::fs::set_permissions(&trace_path, std::fs::Permissions::from_mode(0o666)).map_err(|e| e.to_string())?;
+        cmd.uid(65534).gid(65534);
+    }
     let t0 = Instant::now();
     let mut child = cmd.spawn().map_err(|e| format!("spawn {}: {e}", bin.display()))?;
     let deadline = t0 + Duration::from_secs(30);
